@@ -251,6 +251,15 @@ class PickleStorage(StorageInterface):
         return self.cloudpickle_fallback if cpf is None else cpf
 
     @staticmethod
+    def _with_suffix(filename: Path, suffix: str) -> Path:
+        """
+        File names come WITHOUT extension, so ours is appended -- replacing "the
+        suffix" would eat the tail of names like `relax.v2` or `T_0.5`, and make all
+        of `relax.v1`, `relax.v2`, ... share a single file.
+        """
+        return filename.with_name(filename.name + suffix)
+
+    @staticmethod
     def _tmp(p: Path) -> Path:
         """Where the content for `p` gets written before it is moved into place."""
         return p.with_name(p.name + ".tmp")
@@ -280,7 +289,7 @@ class PickleStorage(StorageInterface):
         e: Exception | None = None
         for suffix, save_method in attacks:
             e = None
-            p = filename.with_suffix(suffix)
+            p = self._with_suffix(filename, suffix)
             tmp = self._tmp(p)
             try:
                 with open(tmp, "wb") as filehandle:
@@ -292,7 +301,7 @@ class PickleStorage(StorageInterface):
             else:
                 for other in (self._PICKLE, self._CLOUDPICKLE):
                     if other != suffix:
-                        filename.with_suffix(other).unlink(missing_ok=True)
+                        self._with_suffix(filename, other).unlink(missing_ok=True)
                 return
         if e is not None:
             raise e
@@ -305,7 +314,7 @@ class PickleStorage(StorageInterface):
             attacks += [(self._CLOUDPICKLE, cloudpickle.load)]
 
         for suffix, load_method in attacks:
-            p = filename.with_suffix(suffix)
+            p = self._with_suffix(filename, suffix)
             if p.is_file():
                 with open(p, "rb") as filehandle:
                     inst = load_method(filehandle)
@@ -319,7 +328,7 @@ class PickleStorage(StorageInterface):
             else [self._PICKLE]
         )
         for suffix in suffixes:
-            p = filename.with_suffix(suffix)
+            p = self._with_suffix(filename, suffix)
             p.unlink(missing_ok=True)
             self._tmp(p).unlink(missing_ok=True)  # Left behind by an interrupted save
 
@@ -331,7 +340,9 @@ class PickleStorage(StorageInterface):
             if self._fallback(cloudpickle_fallback)
             else [self._PICKLE]
         )
-        return any(filename.with_suffix(suffix).exists() for suffix in suffixes)
+        return any(
+            self._with_suffix(filename, suffix).exists() for suffix in suffixes
+        )
 
     def _has_leftovers(
         self, filename: Path, /, cloudpickle_fallback: bool | None = None
@@ -342,7 +353,8 @@ class PickleStorage(StorageInterface):
             else [self._PICKLE]
         )
         return any(
-            self._tmp(filename.with_suffix(suffix)).exists() for suffix in suffixes
+            self._tmp(self._with_suffix(filename, suffix)).exists()
+            for suffix in suffixes
         )
 
 
